@@ -18,6 +18,7 @@ UNDECIDED_PATTERNS = [
   r"Kani does not support",
   r"call to foreign",
   r"reachable unsupported",
+  r"deque stand-in capacity exceeded",
 ]
 
 
